@@ -128,31 +128,37 @@ class TokenFile:
 
         # Watch for the job
         def run():
-            logger.debug("Locking job lock path %s", lockpath)
-            process = None
-            with fasteners.InterProcessLock(lockpath):
-                if not pidpath.is_file():
-                    logger.debug("Job already finished (no PID file)")
-                else:
-                    s = ""
-                    while s == "":
-                        s = pidpath.read_text()
+            while True:
+                logger.debug("Locking job lock path %s", lockpath)
+                process = None
+                with fasteners.InterProcessLock(lockpath):
+                    try:
+                        s = ""
+                        while s == "":
+                            s = pidpath.read_text()
+                    except FileNotFoundError:
+                        logger.debug("Job already finished (no PID file)")
+                    else:
+                        logger.info("Loading job watcher from definition")
+                        from experimaestro.connectors import Process
 
-                    logger.info("Loading job watcher from definition")
-                    from experimaestro.connectors import Process
+                        # FIXME: not always localhost...
+                        from experimaestro.connectors.local import LocalConnector
 
-                    # FIXME: not always localhost...
-                    from experimaestro.connectors.local import LocalConnector
+                        connector = LocalConnector.instance()
+                        process = Process.fromDefinition(connector, json.loads(s))
 
-                    connector = LocalConnector.instance()
-                    process = Process.fromDefinition(connector, json.loads(s))
+                    if process is None:
+                        # Process is None: process has finished. The job cannot be
+                        # started (and its token file written again) while
+                        # its lock is held
+                        self.delete()
+                        return
 
-            # Wait out of the lock
-            if process is not None:
-                # Process is None: process has finished
+                # Wait out of the lock, then look again: the job might have been
+                # started again since (the token file is then the one of this
+                # new run)
                 process.wait()
-
-            self.delete()
 
         threading.Thread(target=run).start()
 
